@@ -9,6 +9,7 @@ package main
 //      which it is non-nil (no leak on the filtered path).
 
 import (
+	"sort"
 	"fmt"
 	"go/token"
 	"go/types"
@@ -118,6 +119,10 @@ func (a *a13) puts(f *ssa.Function, idx int) bool {
 	}
 	a.putsMemo[key] = 3
 	res := false
+	if f.Blocks != nil && viewInfo[f] == nil {
+		// judged with private helpers inlined (e.g. the size guard factored out as a predicate)
+		f = a.p.View(f, "", nil)
+	}
 	if f.Blocks != nil && idx < len(f.Params) {
 		pv := f.Params[idx]
 		has := false
@@ -255,6 +260,13 @@ func usesObj(in ssa.Instruction, obj ssa.Value) bool {
 		if cc.IsInvoke() && sameObj(cc.Value, obj) {
 			return true
 		}
+	case *ssa.Return:
+		// handing the object, or a buffer that still aliases its storage, back to the caller
+		for _, res := range x.Results {
+			if sameObj(res, obj) || loadedFromObj(res, obj) {
+				return true
+			}
+		}
 	}
 	return false
 }
@@ -262,10 +274,23 @@ func usesObj(in ssa.Instruction, obj ssa.Value) bool {
 // ruleA13 checks the functions of the given module-relative packages.
 func ruleA13(r *Run, p *Prog, rels map[string]bool, rules string) *a13 {
 	a := newA13(r, p)
-	for _, f := range p.ModFns {
-		if !rels[pkgRel(f)] {
-			continue
+	// functions are judged with their private helpers inlined (a helper that returns a pooled
+	// object's buffer after putting it back is a use-after-put in its caller); the put wrappers
+	// themselves (conditional Put on the buffer size) stay calls: they are what "put" means
+	var relList []string
+	for rel := range rels {
+		relList = append(relList, rel)
+	}
+	sort.Strings(relList)
+	isPutWrapper := func(g *ssa.Function) bool {
+		for i := range g.Params {
+			if a.puts(g, i) {
+				return true
+			}
 		}
+		return false
+	}
+	for _, f := range p.RootViews(relList, "keep-put-wrappers", isPutWrapper) {
 		a.checkFunc(f, rules)
 	}
 	r.Count("a13_pooled_types", len(a.pooled))
@@ -311,6 +336,25 @@ func (a *a13) checkFunc(f *ssa.Function, rules string) {
 			found, path := pathExists(f, in, func(x ssa.Instruction) bool { return usesObj(x, v) && a.putArgOf(x) == nil }, redefined, nil)
 			r.Ob("A13a", name, p.Pos(in.Pos()), !found, true, tern(!found, "no access to the object after it was returned to the pool", "the object is used after it was returned to the pool (another goroutine may already own it)"))
 			_ = path
+		}
+		if has('a') {
+			// (a') an object that lives in a field of a longer-lived value must not stay reachable
+			// through that field once it is back in the pool: the field is overwritten on every path
+			// from the put to the return (otherwise a later call uses, or puts, somebody else's object)
+			if fv, base := loadedField(baseObj(v)); fv != nil && base != nil {
+				if _, isAlloc := base.(*ssa.Alloc); !isAlloc {
+					clears := func(x ssa.Instruction) bool {
+						st, ok := x.(*ssa.Store)
+						if !ok {
+							return false
+						}
+						fa, ok := st.Addr.(*ssa.FieldAddr)
+						return ok && fieldVar(fa) == fv && sameObj(fa.X, base)
+					}
+					stays, _ := pathExists(f, in, isReturn, clears, nil)
+					r.Ob("A13a", name+"/field-cleared", p.Pos(in.Pos()), !stays, true, tern(!stays, "the field that held the object is overwritten before the function returns", "the object is returned to the pool but field "+fname(fv)+" still refers to it when the function returns: the next call through that field uses (or puts again) an object another goroutine may own"))
+				}
+			}
 		}
 		if has('b') {
 			// (b) double put
